@@ -17,7 +17,7 @@ from gvsim.sim import Raised, Sim, inject_rng, sut
 
 PROP = 'C11'
 TIERS = {'quick': {'runs': 2400, 'wall': 100}, 'thorough': {'runs': 60000, 'wall': 1500}}
-REACH = ['forced_outcome', 'scripted_first', 'scripted_last', 'obstacle_support_checked', 'obstacle_support_checked_boxed_in', 'teleport_support_checked']  # probes / faults that must fire in every batch (reach gaps are reported in the evidence)
+REACH = ['forced_outcome', 'scripted_first', 'scripted_last', 'obstacle_support_checked', 'obstacle_support_checked_boxed_in', 'teleport_support_checked', 'knob:two_nested_chains']  # probes / faults that must fire in every batch (reach gaps are reported in the evidence)
 RULE = ('one run = a family of small layouts (0-5 moving obstacles: cornered, adjacent, boxed in, next to exits / doors / '
         'the agent; telepods of several colours: paired, unpaired, triples) and a seeded op list: steps through a real '
         'GridWorld whose generator is a ScriptedRng (uniform / first / last / mixed outcomes) or a real seeded '
@@ -245,6 +245,7 @@ class Runner:
         for k in ('nest', 'nest2'):
             if record.get(k):
                 spec[k] = record[k]
+                ctx.probe('knob:nested_chain' if k == 'nest' else 'knob:two_nested_chains')
         self.envs = {}
         self.spec = spec
         self.sim = Sim({'clients': [], 'ops': [], 'property': PROP}, ctx, [])
